@@ -11,6 +11,8 @@
   that a dying process had only buffered is lost exactly as it would be.
   An audit hook reports file-system modifications made from oscore.py that did not pass
   through the proxies (=> the check turns inconclusive instead of silently missing effects).
+  Instead of dying, the gate can also make chosen operations *fail* (`fail_at`): the call raises
+  OSError before anything happens on disk and the process lives on.
 * `parse_oscore_option` — independent parser of the compressed OSCORE option (RFC 8613 6.1).
 * `Peer`, `make_dir`, `Lifetime`, `run_ops`, `snapshot` — scratch context directories and the
   history runner shared by the in-process mode and the child driver (oscore_c13child.py).
@@ -55,16 +57,27 @@ class Gate:
         self.trace = []
         self.bypassed = []
         self.enabled = False
+        self.fail_at = set()
+        self.failed = 0
 
-    def reset(self, crash_after=None):
+    def reset(self, crash_after=None, fail_at=()):
         self.n = 0
         self.crash_after = crash_after
         self.dead = False
         self.trace = []
+        self.fail_at = set(fail_at)
+        self.failed = 0
 
     def before(self):
         if self.dead:
             raise Crash("dead process")
+        if self.fail_at and (self.n + 1) in self.fail_at:
+            # the operating system refuses the file-system operation that would have been effect n+1 (disk full,
+            # descriptor table full, read-only remount ...): nothing happens on disk, the process lives on
+            self.n += 1
+            self.failed += 1
+            self.trace.append(("FAILED", ""))
+            raise OSError(28, "No space left on device (injected)")
 
     def effect(self, name, detail=""):
         self.n += 1
